@@ -76,7 +76,7 @@ def lemma_copy_bytes(ctx):
                     ctx.lemma(eng, "C12: Copied(n) carries exactly the kernel's count", p.pc, u.fields[0].t == k.t)
             ctx.witness(eng, "short count inside an iteration", p.pc, [k.t < copies[0].args[2].t])
         elif p.status == "return":
-            errs = [e for e in it if e.ret == "err"]
+            errs = [e for e in it if is_errev(e)]
             if errs:
                 (ctx.passed if is_err(p.ret) else ctx.fail)("C04: a failed copy/send makes copy_bytes return Err", str(trace_names(p)))
             elif not is_ok(p.ret):
@@ -155,7 +155,7 @@ def lemma_copy_sparse(ctx):
             ctx.lemma(eng, "copy_sparse: position advances to the end of the segment (progress, C07)", p.pc,
                       z3.And(fr.locals[l_pos].v.t == nh.t, nh.t > pos0.t))
         elif p.status == "return":
-            errs = [e for e in it if e.ret == "err"]
+            errs = [e for e in it if is_errev(e)]
             if errs:
                 (ctx.passed if is_err(p.ret) else ctx.fail)("C04: a failed segment search/copy makes copy_sparse return Err", str(trace_names(p)))
             elif is_ok(p.ret):
@@ -214,7 +214,7 @@ def lemma_copy_file(ctx):
             first_copy = min(i for i, e in enumerate(p.trace) if e.name in ("copy_bytes", "copy_sparse"))
             if p.trace.index(rl[0]) > first_copy:
                 ctx.fail("C15: clone attempted before data copy", str(names))
-        errs = [e for e in p.trace if e.ret == "err"]
+        errs = [e for e in p.trace if is_errev(e)]
         if errs:
             (ctx.passed if is_err(p.ret) else ctx.fail)("C04: a failed step makes copy_file return Err", str(names))
             continue
